@@ -668,7 +668,8 @@ def run(tier, seed, replay=None):
         impl, model = evaluate(ck, [f['witness']])
         if impl[0] is None or model[0] is None or 'out' not in impl[0]:
             raise RuntimeError(f'witness cannot be evaluated: {impl[0]}')
-        return not judge_dm(f['witness'], impl[0], model[0])[1]
+        judge = judge_dm if f['witness'].get('stream') == 'dm' else judge_tv
+        return not judge(f['witness'], impl[0], model[0])[1]
     ck.replay_known_findings(still_fails)
 
     cases = gen_cases(ck.rng, tier, ck.scale()) if replay is None else [replay['case']]
